@@ -26,3 +26,26 @@ Print Assumptions C03_lexer_reset_total.
 Theorem C03_unsupported_statement_emits_nothing : forall (v : option pyval),
   v = None -> (match v with Some x => [x] | None => [] end) = @nil pyval.
 Proof. intros v ->. reflexivity. Qed.
+
+(* ---------- statements written on one line: independence PROVED, not assumed -----------------------------------------------------------
+   [one_line_statement l l'] speaks about the line alone: after the '=' re-spacing it is l', it holds no comment marker, its first
+   word is not one the line machine skips (GO, USE, INSERT ...) or SET, and its code ends with ';'.  For ANY statement parser:
+   such a line, read in the initial state, is handed to the parser without its ';', yields exactly that statement's entities
+   (nothing for an unsupported statement: the parser returns None) and leaves the machine in its initial state; hence a script of
+   any number of such lines yields the in-order concatenation of the per-statement results, whatever the neighbours are. *)
+Theorem C03_one_line_statement_alone : forall parse_stmt l l' not_last, one_line_statement l l' ->
+  process_line parse_stmt lm0 l not_last =
+  (do r <- parse_stmt (drop_last (code_of l')); Ok (lm0, (entities_of r, []))).
+Proof. exact one_line_statement_alone. Qed.
+Print Assumptions C03_one_line_statement_alone.
+Theorem C03_one_line_statements_independent : forall parse_stmt (ls : list (string * string)) more,
+  Forall (fun p => one_line_statement (fst p) (snd p)) ls ->
+  run_lines parse_stmt lm0 (map fst ls) more = (do t <- results_in_order parse_stmt ls; Ok (lm0, (t, []))).
+Proof. exact one_line_statements_independent. Qed.
+Print Assumptions C03_one_line_statements_independent.
+(* non-vacuity: a table, a query (unsupported) and an ALTER, one per line *)
+Example C03_one_line_examples :
+  one_line_statement "CREATE TABLE t (a int, b varchar(10) NOT NULL);" "CREATE TABLE t (a int, b varchar(10) NOT NULL);" /\
+  one_line_statement "SELECT x FROM t WHERE a=1;" "SELECT x FROM t WHERE a = 1;" /\
+  one_line_statement "  alter table t add constraint pk primary key (a) ;" "  alter table t add constraint pk primary key (a) ;".
+Proof. repeat split; vm_compute; reflexivity. Qed.
